@@ -114,3 +114,35 @@ package jobconfigcontroller
 //@   ensures [C15] quiet-last-scheduled-covers-jobs: result == nil && jcwN == old(jcwN) && jcCached(namespace, name) != nil ==> accSched(jcCached(namespace, name).Status, old(jcCached(namespace, name).Namespace), old(string(jcCached(namespace, name).UID)))
 //@   ensures [C15] quiet-last-executed-covers-jobs: result == nil && jcwN == old(jcwN) && jcCached(namespace, name) != nil ==> accExec(jcCached(namespace, name).Status, old(jcCached(namespace, name).Namespace), old(string(jcCached(namespace, name).UID)))
 //@   ensures [C15,C20] failed-write-is-retried: jcwN == old(jcwN) + 1 && !jcwOK[old(jcwN)] ==> result != nil
+
+// ---- informer.go: every Job event re-queues its owner JobConfig, every JobConfig event the JobConfig itself (C15) ----------------
+//@ import eventhandler "github.com/furiko-io/furiko/pkg/utils/eventhandler"
+// ASSUMED: the event payload converter returns the Job itself for a *Job (and the last known Job for a tombstone)
+//@ extern func github.com/furiko-io/furiko/pkg/utils/eventhandler.Executionv1alpha1Job
+//@   params obj
+//@   ensures typeis(obj, *execution.Job) ==> result1 == nil && result0 == unbox(obj, *execution.Job)
+//@   ensures result1 == nil ==> result0 != nil
+//@   ensures result1 != nil ==> result0 == nil
+// ASSUMED (owner reference + UID label checks against the JobConfig cache): ownerOf is the owner JobConfig the lookup resolves
+// (nil when the Job has no controller owner or the lookup fails its sanity checks)
+//@ pure ownerOf(rj *execution.Job) *execution.JobConfig
+//@ extern func github.com/furiko-io/furiko/pkg/execution/util/jobconfig.LookupJobOwner
+//@   params rj, lister
+//@   ensures result1 == nil ==> result0 == ownerOf(rj)
+//@   ensures result1 != nil ==> result0 == nil && ownerOf(rj) == nil
+
+//@ func InformerWorker.enqueueObject
+//@   tags C15
+//@   requires w != nil
+//@   modifies addN, addKey
+//@   ensures [C15] jobconfig-event-requeues-the-jobconfig: typeis(obj, *execution.JobConfig) ==> addN == old(addN) + 1
+//@        && addKey[old(addN)] == iface(nsname(unbox(obj, *execution.JobConfig).Namespace, unbox(obj, *execution.JobConfig).Name))
+//@   ensures [C15] at-most-one: addN == old(addN) || addN == old(addN) + 1
+
+//@ func InformerWorker.handleJob
+//@   tags C15
+//@   requires w != nil
+//@   modifies addN, addKey
+//@   ensures [C15] job-event-requeues-the-owner-jobconfig: typeis(obj, *execution.Job) && ownerOf(unbox(obj, *execution.Job)) != nil ==> addN == old(addN) + 1
+//@        && addKey[old(addN)] == iface(nsname(ownerOf(unbox(obj, *execution.Job)).Namespace, ownerOf(unbox(obj, *execution.Job)).Name))
+//@   ensures [C15] at-most-one: addN == old(addN) || addN == old(addN) + 1
